@@ -278,5 +278,23 @@ Proof. exact ComposeW.version_after_fix. Qed.
 Example C13_ex_chrome133_composed : ComposeW.ex_chrome133 = true.
 Proof. vm_compute. reflexivity. Qed.
 
+(* THE PROPERTY for every shipped parrot (Gen/Parrots.v), every rearrangement the shuffle can produce, every Config with an
+   SNI name of at most 255 bytes and OmitEmptyPsk, every randomness, every server flight: no premise on ApplyPreset's output
+   left (Model/PresetOk.v, Proofs/PresetOkC.v; reading guide at the end of Props/C02.v). mn = the spec's minimum. *)
+From UV Require Model.PresetOk Model.Shuffle Model.ParrotSpec Gen.Parrots Proofs.PresetOkC.
+Theorem C13_version_advertised_from_parrot : forall p swaps exts', In p Parrots.all ->
+  Shuffle.shuffle ParrotSpec.fixedb swaps (Preset.sp_exts (Preset.p_spec p)) = Ok exts' ->
+  forall c fr h es, PresetOkC.parrot_class c ->
+  Preset.apply_preset (PresetOk.with_exts (Preset.p_spec p) exts') c fr = Ok (h, es) ->
+  forall mn mx env bbs padto raw s' load ecdhe mlkem sess fl st,
+  Preset.set_tls_vers (PresetOk.with_exts (Preset.p_spec p) exts') = Ok (mn, mx) ->
+  ChMarshal.marshal_hello bbs padto h es = Ok raw ->
+  WriteToUConn.apply_config env (ChMarshal.marshal_hello bbs padto h es) (ComposeW.preset_state h mn mx) es = Ok s' ->
+  client_run (WriteToUConn.view_of (WriteToUConn.finish load es s') es ecdhe mlkem sess) fl = Complete st ->
+  exists w, WriteToUConn.wire_of raw = Some w /\ In (cs_vers st) (advertised mn w).
+Proof. exact PresetOkC.parrot_version_advertised. Qed.
+Print Assumptions C13_version_advertised_from_parrot.
+
 (* imported last, for the driver's closure scan only (see the end of Props/C12.v) *)
 From UV Require Import Model.WriteToUConn Proofs.ComposeP Proofs.ComposeW.
+From UV Require Import Model.PresetOk Proofs.PresetOkP Proofs.PresetOkS Proofs.PresetOkT Proofs.PresetOkC.
